@@ -107,6 +107,38 @@ def fld_cases(rnd, per_fn):
     return out
 
 
+def password_cases(rnd, n):
+    """strispassword_s needs strings of 6..31 characters: beyond the TLC arena, seeded here"""
+    out = []
+    lower, upper, digit, special = list(range(97, 123)), list(range(65, 91)), list(range(48, 58)), [33, 47, 58, 64, 91, 94, 95, 96, 123, 126]
+    illegal = [32, 127, 200, 9]
+    for _ in range(n):
+        ln = rnd.choice([0, 1, 5, 6, 7, 12, 30, 31, 32, 33])
+        kinds = rnd.choice([(2, 2, 1, 1), (1, 2, 1, 1), (2, 1, 1, 1), (2, 2, 0, 1), (2, 2, 1, 0), (3, 3, 2, 2), (0, 0, 0, 0)])
+        s = [rnd.choice(lower) for _ in range(kinds[0])] + [rnd.choice(upper) for _ in range(kinds[1])] + [rnd.choice(digit) for _ in range(kinds[2])] + [rnd.choice(special) for _ in range(kinds[3])]
+        while len(s) < ln:
+            s.append(rnd.choice(lower + upper + digit + special))
+        s = s[:ln]
+        rnd.shuffle(s)
+        if s and rnd.random() < 0.15:
+            s[rnd.randrange(len(s))] = rnd.choice(illegal)
+        term = rnd.random() < 0.85
+        dmax = rnd.choice([1, 5, 6, 7, ln, ln + 1, ln + 2, 31, 32, 33, 40])
+        dmax = max(1, dmax)
+        # flush against the end of the arena: reading dest[dmax] faults
+        ext = max(dmax, ln + (1 if term else 0)) if term else max(dmax, ln)
+        if not term and ln < dmax:
+            s = s + [rnd.choice(lower) for _ in range(dmax - ln)]       # no terminator inside dmax
+            ln = dmax
+            ext = dmax
+        d = 2
+        a = blank(d - 1) + s + ([0] if term else [])
+        while len(a) < d - 1 + ext:
+            a.append(G(len(a)))
+        out.append(case("strispassword_s", 1, d, dmax, 0, 0, a))
+    return out
+
+
 def mem_cases(rnd, per_fn):
     out = []
     for fn, w in MEMC:
@@ -150,6 +182,8 @@ def cases(family, seed, tier):
     k = 60 if tier == "quick" else 600
     if family == "strcopy":
         return copy_cases(rnd, k) + cat_cases(rnd, k)
+    if family == "query1":
+        return password_cases(rnd, k * 10)
     if family == "strfld":
         return fld_cases(rnd, k)
     if family == "memcopy":
